@@ -23,22 +23,39 @@ Theorem C26_read_after_save_open :
 Proof. exact bd_read_after_save_open. Qed.
 Print Assumptions C26_read_after_save_open.
 
-(* The full statement for keys that were never written: the lookup returns not-found. *)
-Definition C26_absent_key_not_found_statement : Prop :=
+(* A key that was never written is reported not-found (never a hang, never another record),
+   within numKeys + 2 iterations, by the loop that the source tree contains ([bd_read_src]
+   follows Gen/BlockDBLoop.v, regenerated from sharder/blockdb/index.go on every run). *)
+Theorem C26_absent_key_not_found :
+  forall comp klen c ws,
+    let sws := bd_stored_ws comp c ws in
+    let db := bd_write_all bd_create sws in
+    let buf := bd_index_body (bd_idx db) in
+    bd_ws_ok klen sws -> forall key, bd_last_written ws key = None ->
+    forall fuel, (bd_fuel buf klen <= fuel)%nat -> bd_read_src fuel klen buf (bd_data db) key = BdReadNotFound.
+Proof. exact bd_src_absent_full. Qed.
+Print Assumptions C26_absent_key_not_found.
+
+(* ---- History (F-26, fixed in the source tree by d8db4fe).  The following four theorems are
+   about [bd_get_go]/[bd_read], the loop as it was before the fix (`break` inside the `switch`);
+   they document why the fix was needed and are not statements about the current source. ---- *)
+
+(* The full statement for keys that were never written, for the loop before the fix. *)
+Definition C26_break_in_switch_absent_key_statement : Prop :=
   forall klen sws key, bd_ws_ok klen sws -> bd_last_written sws key = None ->
     let db := bd_write_all bd_create sws in
     exists fuel, bd_read fuel klen (bd_index_body (bd_idx db)) (bd_data db) key = BdReadNotFound.
 
-(* It is false of the code as written: with one stored key, looking up a different key never
+(* It was false of that loop: with one stored key, looking up a different key never
    returns (the `break` inside the `switch` leaves the loop state unchanged): no fuel suffices. *)
-Theorem C26_absent_key_not_found_refuted : ~ C26_absent_key_not_found_statement.
+Theorem C26_break_in_switch_loop_fails_statement : ~ C26_break_in_switch_absent_key_statement.
 Proof. exact bd_absent_statement_refuted. Qed.
-Print Assumptions C26_absent_key_not_found_refuted.
+Print Assumptions C26_break_in_switch_loop_fails_statement.
 
-Theorem C26_lookup_diverges :
+Theorem C26_break_in_switch_loop_diverges :
   forall fuel, bd_get_offset fuel (bd_index_body [([5], 0)]) 1 [7] = BdOutOfFuel.
 Proof. exact bd_w_diverges. Qed.
-Print Assumptions C26_lookup_diverges.
+Print Assumptions C26_break_in_switch_loop_diverges.
 
 (* Running out of fuel at bd_fuel = numKeys + 2 means that no fuel suffices, i.e. the Go loop
    does not return (what the engine observes as a timeout). *)
@@ -48,9 +65,9 @@ Theorem C26_out_of_fuel_is_divergence :
 Proof. exact bd_timeout_is_divergence. Qed.
 Print Assumptions C26_out_of_fuel_is_divergence.
 
-(* What holds of the code as written for a key that was never written: it never returns another
+(* What held of that loop for a key that was never written: it never returns another
    record, and it returns not-found unless the loop is stuck. *)
-Theorem C26_absent_key_partial :
+Theorem C26_break_in_switch_loop_never_a_record :
   forall comp klen c ws key,
     let sws := bd_stored_ws comp c ws in
     let db := bd_write_all bd_create sws in
@@ -61,7 +78,7 @@ Theorem C26_absent_key_partial :
     (bd_get_offset (bd_fuel buf klen) buf klen key <> BdOutOfFuel ->
      forall fuel, (bd_fuel buf klen <= fuel)%nat -> bd_read fuel klen buf (bd_data db) key = BdReadNotFound).
 Proof. exact bd_absent_partial. Qed.
-Print Assumptions C26_absent_key_partial.
+Print Assumptions C26_break_in_switch_loop_never_a_record.
 
 (* With the repair (the `break`s leave the loop) the full statement holds, and present keys
    read exactly as before. *)
